@@ -275,12 +275,23 @@ fn inflate_bytes(data: &[u8]) -> Result<Vec<u8>> {
     Ok(decoded)
 }
 
-pub fn flate_decode(data: &[u8], params: &LZWFlateParams) -> Result<Vec<u8>> {
+/// Row geometry of predicted data: bytes per pixel (rounded up to whole bytes, which is the distance
+/// the PNG filters look back) and bytes per row (rows are padded to whole bytes).
+fn predictor_geometry(params: &LZWFlateParams) -> Result<(usize, usize)> {
+    let (colors, bpc, columns) = (params.n_components, params.bits_per_component, params.columns);
+    if colors < 1 || columns < 1 || !matches!(bpc, 1 | 2 | 4 | 8 | 16) {
+        bail!("invalid predictor parameters {:?}", params);
+    }
+    let pixel_bits = colors as u128 * bpc as u128;
+    let row_bits = pixel_bits * columns as u128;
+    match (usize::try_from((pixel_bits + 7) / 8), usize::try_from((row_bits + 7) / 8)) {
+        (Ok(bpp), Ok(stride)) => Ok((bpp, stride)),
+        _ => bail!("predictor row too large {:?}", params)
+    }
+}
 
-    let predictor = params.predictor as usize;
-    let n_components = params.n_components as usize;
-    let columns = params.columns as usize;
-    let stride = columns * n_components;
+pub fn flate_decode(data: &[u8], params: &LZWFlateParams) -> Result<Vec<u8>> {
+    let predictor = params.predictor;
 
 
     // First flate decode
@@ -298,11 +309,15 @@ pub fn flate_decode(data: &[u8], params: &LZWFlateParams) -> Result<Vec<u8>> {
     // For this, take the old out as input, and write output to out
 
     if predictor > 10 {
+        let (bpp, stride) = predictor_geometry(params)?;
         let inp = decoded; // input buffer
         let rows = inp.len() / (stride+1);
         
         // output buffer
         let mut out = vec![0; rows * stride];
+        if rows == 0 {
+            return Ok(out);
+        }
     
         // Apply inverse predictor
         let null_vec = vec![0; stride];
@@ -323,7 +338,7 @@ pub fn flate_decode(data: &[u8], params: &LZWFlateParams) -> Result<Vec<u8>> {
                 let (prev, curr) = out.split_at_mut(out_off);
                 (&prev[last_out_off ..], &mut curr[.. stride])
             };
-            unfilter(predictor, n_components, prev_row, row_in, row_out);
+            unfilter(predictor, bpp, prev_row, row_in, row_out);
             
             last_out_off = out_off;
             
